@@ -22,8 +22,10 @@ through `path_mut()` keeps the buffer valid by `C04.path_session`, query and fra
 the setters of C04), the inputs being unchanged because the model is a pure function; and (ii)
 the scheme-mismatch branch returns `a` itself; and (iii) **the round trip itself on the class the
 function was written for** (`roundtrip_on_class_partial`): same scheme, equal authorities, absolute
-paths, no query or fragment on `a`, and a non-empty remainder of `a`'s normalised segments, without
-empty segments, after the common prefix with the base's directory.  There `a.relative_to(b)` is
+paths, a non-empty remainder of `a`'s normalised segments, without
+empty segments, after the common prefix with the base's directory (and, when `a` has a query or a
+fragment, the relative path must not coincide with the base's last segment — the one special case
+of the code).  There `a.relative_to(b)` is
 `../` for every remaining segment of the base's directory followed by that remainder
 (`relative_to_on_class`), and resolving it against `b` gives a URI/IRI equal to `a`
 (`Lemmas/RelativeRoundTrip.lean`, through `C06.resolve_relative_authority`).  The check judges the implementation with the
@@ -83,11 +85,15 @@ theorem roundtrip_on_class_partial (G : Grammar) (ok : Lemmas.Grammar.Ok G) (okp
     (hsch : (split a).scheme = (split b).scheme)
     (haa : (split a).authority = some aa) (hab : (split b).authority = some ab) (hauth : authKey aa = authKey ab)
     (hpa : isAbs (split a).path = true) (hpb : isAbs (split b).path = true)
-    (hq : (split a).query = none) (hf : (split a).fragment = none)
+    (hnsp : (((split a).query.isSome || (split a).fragment.isSome) &&
+      some (Lemmas.renderRel
+        (((Ref.dropCommon (nsegs (split a).path) (nsegs (Path.parent_or_empty (split b).path))).2.map fun _ => segDotDot) ++
+          (Ref.dropCommon (nsegs (split a).path) (nsegs (Path.parent_or_empty (split b).path))).1))
+        == Path.last (split b).path) = false)
     (hrem : (Ref.dropCommon (nsegs (split a).path) (nsegs (Path.parent_or_empty (split b).path))).1 ≠ [] ∧
       [] ∉ (Ref.dropCommon (nsegs (split a).path) (nsegs (Path.parent_or_empty (split b).path))).1) :
     ∃ r t, Ref.relative_to a b = some r ∧ Ref.resolve r b = some t ∧ key t = key a :=
-  Lemmas.relative_roundtrip G ok okp oka we a b aa ab ha hb hsch haa hab hauth hpa hpb hq hf hrem
+  Lemmas.relative_roundtrip G ok okp oka we a b aa ab ha hb hsch haa hab hauth hpa hpb hnsp hrem
 
 /-- what `relative_to` returns there -/
 theorem relative_to_on_class (G : Grammar) (ok : Lemmas.Grammar.Ok G) (okp : Lemmas.Grammar.OkPath G)
@@ -96,11 +102,16 @@ theorem relative_to_on_class (G : Grammar) (ok : Lemmas.Grammar.Ok G) (okp : Lem
     (hsch : (split a).scheme = (split b).scheme)
     (haa : (split a).authority = some aa) (hab : (split b).authority = some ab) (hauth : authKey aa = authKey ab)
     (hpa : isAbs (split a).path = true) (hpb : isAbs (split b).path = true)
-    (hq : (split a).query = none) (hf : (split a).fragment = none) :
-    Ref.relative_to a b = some (Lemmas.renderRel
+    (hnsp : (((split a).query.isSome || (split a).fragment.isSome) &&
+      some (Lemmas.renderRel
+        (((Ref.dropCommon (nsegs (split a).path) (nsegs (Path.parent_or_empty (split b).path))).2.map fun _ => segDotDot) ++
+          (Ref.dropCommon (nsegs (split a).path) (nsegs (Path.parent_or_empty (split b).path))).1))
+        == Path.last (split b).path) = false) :
+    Ref.relative_to a b = some (recompose (Lemmas.pathQF (Lemmas.renderRel
       (((Ref.dropCommon (nsegs (split a).path) (nsegs (Path.parent_or_empty (split b).path))).2.map fun _ => segDotDot) ++
-        (Ref.dropCommon (nsegs (split a).path) (nsegs (Path.parent_or_empty (split b).path))).1)) :=
-  Lemmas.relative_to_explicit G ok okp oka we a b aa ab ha hb hsch haa hab hauth hpa hpb hq hf
+        (Ref.dropCommon (nsegs (split a).path) (nsegs (Path.parent_or_empty (split b).path))).1))
+      (split a).query (split a).fragment)) :=
+  Lemmas.relative_to_explicit G ok okp oka we a b aa ab ha hb hsch haa hab hauth hpa hpb hnsp
 
 /-- end to end, URI family: accepted `Uri`s in the class -/
 theorem uri_roundtrip_on_class_partial (a b aa ab : Text) (ha8 : ∀ c ∈ a, c < 256) (hb8 : ∀ c ∈ b, c < 256)
@@ -108,12 +119,16 @@ theorem uri_roundtrip_on_class_partial (a b aa ab : Text) (ha8 : ∀ c ∈ a, c 
     (hsch : (split a).scheme = (split b).scheme)
     (haa : (split a).authority = some aa) (hab : (split b).authority = some ab) (hauth : authKey aa = authKey ab)
     (hpa : isAbs (split a).path = true) (hpb : isAbs (split b).path = true)
-    (hq : (split a).query = none) (hf : (split a).fragment = none)
+    (hnsp : (((split a).query.isSome || (split a).fragment.isSome) &&
+      some (Lemmas.renderRel
+        (((Ref.dropCommon (nsegs (split a).path) (nsegs (Path.parent_or_empty (split b).path))).2.map fun _ => segDotDot) ++
+          (Ref.dropCommon (nsegs (split a).path) (nsegs (Path.parent_or_empty (split b).path))).1))
+        == Path.last (split b).path) = false)
     (hrem : (Ref.dropCommon (nsegs (split a).path) (nsegs (Path.parent_or_empty (split b).path))).1 ≠ [] ∧
       [] ∉ (Ref.dropCommon (nsegs (split a).path) (nsegs (Path.parent_or_empty (split b).path))).1) :
     ∃ r t, Ref.relative_to a b = some r ∧ Ref.resolve r b = some t ∧ key t = key a :=
   roundtrip_on_class_partial uriG Lemmas.uriG_ok Lemmas.uriG_okPath Lemmas.uriG_okAuth Lemmas.uriG_okWE a b aa ab
-    (Valid.uri_octets a ha8 ha) (Valid.uri_octets b hb8 hb) hsch haa hab hauth hpa hpb hq hf hrem
+    (Valid.uri_octets a ha8 ha) (Valid.uri_octets b hb8 hb) hsch haa hab hauth hpa hpb hnsp hrem
 
 /-- … IRI family (octets) -/
 theorem iri_roundtrip_on_class_partial (a b aa ab : Text) (ha8 : ∀ c ∈ a, c < 256) (hb8 : ∀ c ∈ b, c < 256)
@@ -121,21 +136,25 @@ theorem iri_roundtrip_on_class_partial (a b aa ab : Text) (ha8 : ∀ c ∈ a, c 
     (hsch : (split a).scheme = (split b).scheme)
     (haa : (split a).authority = some aa) (hab : (split b).authority = some ab) (hauth : authKey aa = authKey ab)
     (hpa : isAbs (split a).path = true) (hpb : isAbs (split b).path = true)
-    (hq : (split a).query = none) (hf : (split a).fragment = none)
+    (hnsp : (((split a).query.isSome || (split a).fragment.isSome) &&
+      some (Lemmas.renderRel
+        (((Ref.dropCommon (nsegs (split a).path) (nsegs (Path.parent_or_empty (split b).path))).2.map fun _ => segDotDot) ++
+          (Ref.dropCommon (nsegs (split a).path) (nsegs (Path.parent_or_empty (split b).path))).1))
+        == Path.last (split b).path) = false)
     (hrem : (Ref.dropCommon (nsegs (split a).path) (nsegs (Path.parent_or_empty (split b).path))).1 ≠ [] ∧
       [] ∉ (Ref.dropCommon (nsegs (split a).path) (nsegs (Path.parent_or_empty (split b).path))).1) :
     ∃ r t, Ref.relative_to a b = some r ∧ Ref.resolve r b = some t ∧ key t = key a :=
   roundtrip_on_class_partial Lemmas.iriGB Lemmas.iriGB_ok Lemmas.iriGB_okPath Lemmas.iriGB_okAuth Lemmas.iriGB_okWE
-    a b aa ab (Valid.iri_octets a ha8 ha) (Valid.iri_octets b hb8 hb) hsch haa hab hauth hpa hpb hq hf hrem
+    a b aa ab (Valid.iri_octets a ha8 ha) (Valid.iri_octets b hb8 hb) hsch haa hab hauth hpa hpb hnsp hrem
 
-/-- the hypotheses are satisfiable: `s://h/a/b/c` relative to `s://h/a/d/e` -/
+/-- the hypotheses are satisfiable: `s://h/a/b/c#f` relative to `s://h/a/d/e` -/
 example :
-    let a : Text := [0x73,0x3A,0x2F,0x2F,0x68,0x2F,0x61,0x2F,0x62,0x2F,0x63]
+    let a : Text := [0x73,0x3A,0x2F,0x2F,0x68,0x2F,0x61,0x2F,0x62,0x2F,0x63,0x23,0x66]
     let b : Text := [0x73,0x3A,0x2F,0x2F,0x68,0x2F,0x61,0x2F,0x64,0x2F,0x65]
     (split a).scheme = (split b).scheme ∧ (split a).authority = some [0x68] ∧ (split b).authority = some [0x68] ∧
-    isAbs (split a).path = true ∧ isAbs (split b).path = true ∧ (split a).query = none ∧ (split a).fragment = none ∧
+    isAbs (split a).path = true ∧ isAbs (split b).path = true ∧ (split a).fragment = some [0x66] ∧
     (Ref.dropCommon (nsegs (split a).path) (nsegs (Path.parent_or_empty (split b).path))).1 = [[0x62], [0x63]] ∧
-    Ref.relative_to a b = some [0x2E,0x2E,0x2F,0x62,0x2F,0x63] := by decide
+    Ref.relative_to a b = some [0x2E,0x2E,0x2F,0x62,0x2F,0x63,0x23,0x66] := by decide
 
 /-- negative witnesses of F12 on the model (and, by correspondence, on the code) -/
 example : Findings.f12 [0x73, 0x3A] [0x73, 0x3A, 0x2F, 0x2F, 0x68, 0x2F, 0x61] = true := by decide
